@@ -168,7 +168,11 @@ def replace_subgroups(
         elif is_optional(field_annotation) and value_of_selection is None:
             field_value = None
         elif contains_dataclass_type_arg(field_annotation) and value_of_selection is None:
-            field_value = field.default_factory()
+            # Only the subgroups *below* this field are being replaced: keep the current value of
+            # the field (and with it the siblings of the replaced subgroup), and only fall back
+            # to the field's default when there is no dataclass instance to descend into.
+            if not is_dataclass_instance(field_value):
+                field_value = field.default_factory()
         else:
             raise ValueError(
                 f"invalid selection key '{value_of_selection}' for field '{field.name}'"
